@@ -235,6 +235,7 @@ impl PathSliceList {
                     let mut prepend = String::new();
                     let mut need_object_assign = false;
                     let mut next_need_comma_sep = false;
+                    let mut spread_args: Vec<String> = vec![];
                     for (key, sub_pas_str, sub_p) in v.iter() {
                         let mut sub_s = String::new();
                         let sub_pas_str = sub_pas_str.to_path_analysis_str(
@@ -253,13 +254,23 @@ impl PathSliceList {
                                     next_need_comma_sep = true;
                                 }
                                 None => {
-                                    write!(prepend, "({})===true||", sub_s)?;
-                                    write!(s, "}},X({}),{{", sub_s)?;
+                                    // the tree of a spread operand is needed twice: it is handed over as an
+                                    // argument (`$0`, `$1`, ..) so that it is written - and evaluated - once
+                                    // (written twice, nested spreads doubled the code at every level)
+                                    let n = spread_args.len();
+                                    write!(prepend, "${}===true||", n)?;
+                                    write!(s, "}},X(${}),{{", n)?;
+                                    spread_args.push(sub_s);
                                     need_object_assign = true;
                                     next_need_comma_sep = false;
                                 }
                             }
                         }
+                    }
+                    if need_object_assign {
+                        let params: Vec<String> =
+                            (0..spread_args.len()).map(|n| format!("${}", n)).collect();
+                        write!(ret, "(({})=>", params.join(","))?;
                     }
                     if is_template_data {
                         if need_object_assign {
@@ -273,6 +284,9 @@ impl PathSliceList {
                         } else {
                             write!(ret, "{}Q.b({{{}}})", prepend, s)?;
                         }
+                    }
+                    if need_object_assign {
+                        write!(ret, ")({})", spread_args.join(","))?;
                     }
                 }
                 PathSlice::CombineArr(v, spread) => {
